@@ -163,7 +163,7 @@ def _exhaustive():
                 for b in EXH_BASES:
                     k += 1
                     yield {"base": b, "ref1": p, "as_url1": bool(k & 1), "ref2": r2s[k % len(r2s)],
-                           "as_url2": bool(k & 2)}
+                           "as_url2": bool(k & 2), "unrooted": k % 5 == 0}
 
 
 def generate(rng, tier, n):
@@ -172,13 +172,20 @@ def generate(rng, tier, n):
             yield c
     for _ in range(n):
         yield {"base": _base(rng), "ref1": _ref(rng), "as_url1": rng.random() < 0.5,
-               "ref2": _ref(rng), "as_url2": rng.random() < 0.5}
+               "ref2": _ref(rng), "as_url2": rng.random() < 0.5, "unrooted": rng.random() < 0.15}
 
 
 # --------------------------------------------------------------------------
 def run_impl(case):
     from boltons.urlutils import URL
     base = URL(case["base"])
+    if case.get("unrooted"):
+        # the same URL built the way from_parts' documentation suggests: path_parts=('post', '123')
+        pp = tuple(base.path_parts)
+        if len(pp) >= 2 and pp[0] == '' and pp[1] != '':
+            base = URL.from_parts(scheme=base.scheme, host=base.host, path_parts=pp[1:],
+                                  query_params=base.query_params, fragment=base.fragment, port=base.port,
+                                  username=base.username, password=base.password)
     before = base.to_text()
     r1 = URL(case["ref1"]) if case["as_url1"] else case["ref1"]
     n1 = base.navigate(r1)
@@ -229,8 +236,8 @@ FIELDS = ["before", "nav1", "nav1_again", "after", "nav2", "nb1", "nb2", "nr1", 
 
 
 def to_coq(case, obs):
-    return "mkCase %s %s %s %s %s (mkObs %s)" % (
-        _codes(case["base"]), _codes(case["ref1"]), cbool(case["as_url1"]),
+    return "mkCase %s %s %s %s %s %s (mkObs %s)" % (
+        _codes(case["base"]), cbool(bool(case.get("unrooted"))), _codes(case["ref1"]), cbool(case["as_url1"]),
         _codes(case["ref2"]), cbool(case["as_url2"]),
         " ".join(_codes(obs[k]) for k in FIELDS))
 
@@ -283,6 +290,7 @@ def distribution(d, case, obs):
     _bump(d, "ref1_kind", _kind(case["ref1"]))
     _bump(d, "ref2_kind", _kind(case["ref2"]))
     _bump(d, "ref1_passed_as", "URL" if case["as_url1"] else "str")
+    _bump(d, "base_built_by", "from_parts(unrooted path_parts)" if case.get("unrooted") else "URL(text)")
     b = case["base"]
     bp = b.split('#')[0].split('?')[0].split('://', 1)[1].partition('/')
     _bump(d, "base_path", "empty" if not bp[1] else ("root" if not bp[2] else
